@@ -28,6 +28,13 @@ Proof.
   destruct (compile ue name src); [left; eauto|right; eauto|congruence|congruence].
 Qed.
 
+(* and the fuel is only a bound, not a parameter of the result: every larger fuel gives the same
+   answer (each combinator is monotone in the order "agrees wherever the smaller one does not run
+   out of fuel"), so the model describes the unbounded recursion of the Rust parsers *)
+Theorem parse_fuel_irrelevant : forall (src : bytes) (f : nat), fuel_for src <= f ->
+  template (ty_gram f) (texpr_gram (expr_gram f) f f TE) src = parse_template src.
+Proof. exact parse_fuel_irrelevant_lemma. Qed.
+
 (* the recursion-depth bounds behind it, for every fuel n and input length k *)
 Theorem grammar_fuel_ranks :
   (forall n k x, erank x k <= n -> nf k (expr_gram n x)) /\
@@ -89,6 +96,7 @@ Proof. repeat split; eexists; vm_compute; reflexivity. Qed.
 Redirect "assumptions/C11.compile_never_panics" Print Assumptions compile_never_panics.
 Redirect "assumptions/C11.parse_no_panic" Print Assumptions parse_no_panic.
 Redirect "assumptions/C11.parse_fuel_sufficient" Print Assumptions parse_fuel_sufficient.
+Redirect "assumptions/C11.parse_fuel_irrelevant" Print Assumptions parse_fuel_irrelevant.
 Redirect "assumptions/C11.compile_total" Print Assumptions compile_total.
 Redirect "assumptions/C11.grammar_fuel_ranks" Print Assumptions grammar_fuel_ranks.
 Redirect "assumptions/C11.errors_are_inside_input" Print Assumptions errors_are_inside_input.
